@@ -27,7 +27,9 @@ FUNCTIONS = ['uxarray.grid.neighbors._construct_edge_node_distances',
     'uxarray.core.dataarray.UxDataArray.difference@dims=n_face;node',
     'uxarray.core.dataarray.UxDataArray.difference@dims=n_node;face',
     'uxarray.core.dataarray.UxDataArray.difference@dims=n_face;bogus',
-    'uxarray.grid.slice._slice_face_indices']
+    'uxarray.grid.slice._slice_face_indices',
+    'uxarray.grid.neighbors._populate_edge_node_distances',
+    'uxarray.grid.neighbors._populate_edge_face_distances']
 STANDINS = ["edge_quantities", "consumers"]
 ASSUMPTIONS = ["A-TRIG"]
 EXPLANATION = "distance constructors pointwise"
